@@ -58,7 +58,7 @@ def other_cases(ctx, n):
 
 
 def run(ctx):
-    cases = list_cases(ctx, 500 if ctx.tier == 'quick' else 20000)
+    cases = list_cases(ctx, 500 if ctx.tier == 'quick' else 60000)
     got = lib.run_impl_py('c06', cases)
     exp = [{'sources_ok': True, 'alias': False} for _ in cases]
     ctx.compare(cases, exp, got, THEOREM,
